@@ -216,6 +216,102 @@ func nilGuarded(a *Arith, v ssa.Value, facts []Fact) bool {
 	return false
 }
 
+// guardedByHelper: among the facts there is `g(x) == zero` (zero: "", nil, 0, false) for the very x whose field is used,
+// and g — a module function — returns that zero constant only in blocks dominated by the non-nil edge of a nil test
+// of the same field of its parameter (`problem := check(node); if problem != "" { return … }`).
+func (m *Model) guardedByHelper(fa *ssa.FieldAddr, facts []Fact) *ssa.Function {
+	isZero := func(c *ssa.Const) bool {
+		if c.IsNil() {
+			return true
+		}
+		if c.Value == nil {
+			return false
+		}
+		switch c.Value.Kind() {
+		case constant.String:
+			return constant.StringVal(c.Value) == ""
+		case constant.Bool:
+			return !constant.BoolVal(c.Value)
+		case constant.Int:
+			v, ok := constant.Int64Val(c.Value)
+			return ok && v == 0
+		}
+		return false
+	}
+	for _, f := range facts {
+		bo, ok := f.Cond.(*ssa.BinOp)
+		if !ok || (bo.Op != token.EQL && bo.Op != token.NEQ) {
+			continue
+		}
+		var call *ssa.Call
+		var k *ssa.Const
+		if c, isC := bo.X.(*ssa.Call); isC {
+			call, k, _ = c, nil, 0
+			k, _ = bo.Y.(*ssa.Const)
+		} else if c, isC := bo.Y.(*ssa.Call); isC {
+			call = c
+			k, _ = bo.X.(*ssa.Const)
+		}
+		if call == nil || k == nil || !isZero(k) || (bo.Op == token.EQL) != f.Holds {
+			continue
+		}
+		g := call.Call.StaticCallee()
+		if g == nil || g.Blocks == nil || !m.InModule(g) || g.Signature.Results().Len() != 1 {
+			continue
+		}
+		pi := -1
+		for i, a := range call.Call.Args {
+			if stripIface(a) == fa.X {
+				pi = i
+			}
+		}
+		if pi < 0 || pi >= len(g.Params) {
+			continue
+		}
+		ga := m.NewArith(g)
+		all, n := true, 0
+		for _, b := range g.Blocks {
+			ret, isRet := b.Instrs[len(b.Instrs)-1].(*ssa.Return)
+			if !isRet || len(ret.Results) != 1 {
+				continue
+			}
+			rc, isK := ret.Results[0].(*ssa.Const)
+			if isK && !isZero(rc) {
+				continue // a non-zero constant: the caller takes the other side
+			}
+			n++
+			if !isK {
+				all = false // a computed result may be zero anywhere
+				continue
+			}
+			// the same field of the parameter, known non-nil here
+			guarded := false
+			for _, gb := range g.Blocks {
+				for _, in := range gb.Instrs {
+					ld, isLd := in.(*ssa.UnOp)
+					if !isLd || ld.Op != token.MUL {
+						continue
+					}
+					gfa, isFA := ld.X.(*ssa.FieldAddr)
+					if !isFA || gfa.Field != fa.Field || gfa.X != ssa.Value(g.Params[pi]) {
+						continue
+					}
+					if nilGuarded(ga, ld, expandFacts(factsAt(b))) {
+						guarded = true
+					}
+				}
+			}
+			if !guarded {
+				all = false
+			}
+		}
+		if all && n > 0 {
+			return g
+		}
+	}
+	return nil
+}
+
 // RunNilField checks every use of a nilable AST field in fns.
 func (m *Model) RunNilField(s *Sink, rule string, fns []*ssa.Function) {
 	ni := m.NilableASTFields()
@@ -241,6 +337,10 @@ func (m *Model) RunNilField(s *Sink, rule string, fns []*ssa.Function) {
 					facts := expandFacts(factsAt(use.at.Block()))
 					if nilGuarded(a, ld, facts) {
 						s.OK(rule, key, m.InstrPos(use.at), "dominated by the non-nil edge of a nil test of the same field")
+						continue
+					}
+					if h := m.guardedByHelper(fa, facts); h != nil {
+						s.OK(rule, key, m.InstrPos(use.at), "dominated by `%s(node) == <zero>`, and %s returns the zero value only where it has found the field non-nil", canonFnName(h), canonFnName(h))
 						continue
 					}
 					s.Violation(rule, key, m.InstrPos(use.at),
